@@ -419,6 +419,11 @@ func init() {
 		return prim(addr, x.resType(c, 0))
 	}))
 	builtins[mAddr+"String"] = one(func(x *Exec, s *State, r *Value, a []*Value, c *ast.CallExpr) *Value {
+		if r.T == nil {
+			// address value that is not a scalar in the model (e.g. a converted byte slice): its text is an unknown string
+			x.note("ADDR: String() of a non-scalar address value at %s modelled as an unknown string", x.Pr.Pos(c.Pos()))
+			return prim(Fresh("addr.str", SInt), tStr)
+		}
 		str := App("addr.to_str", SInt, r.T)
 		s.Assume(Eq(App("addr.of_str", SInt, str), r.T))
 		s.Assume(Eq(App("addr.of_str_err", SInt, str), Zero))
